@@ -3,9 +3,17 @@
 //!   (9 4 shape k)                  ShapeIterator, items only (index spaces beyond usize::MAX)
 //!   (9 2 kind wi src k)            tensor iterators over a source term
 //!   (9 3 order mode wi src arg k)  matrix iterators over a matrix source term
+//!   (9 5 kind wi term k)           tensor iterators over ANY C02 view term (c09/over_views.rs)
+//!   (9 7 script op args..)         one of the ops 1, 2, 3, 5, 6 with the iterator driven by a script over
+//!                                  nth / by_ref().skip / step_by / take / count / last / fold (see `drive`)
+//!   (9 6 order mode wi rows cols data leaf wrappers arg k)
+//!                                  matrix iterators over a stack of C12 matrix views incl. partition
+//!                                  parts / quadrants and tensor round trips (c09/over_mviews.rs)
 //! Every API form that constructs the same iterator is driven and cross-checked; sources are
 //! built both as statically typed view compositions and as `Box<dyn TensorMut>` chains.
 mod matrix;
+mod over_mviews;
+mod over_views;
 mod tsrc;
 
 use crate::guarded;
@@ -46,38 +54,149 @@ pub fn run(args: &[Sx]) -> Sx {
             with_d!(d, titer(kind, wi, &term, k))
         }
         Some(3) if args.len() == 7 => matrix::run(args),
+        Some(5) if args.len() == 5 => over_views::run(args),
+        Some(6) if args.len() == 11 => over_mviews::run(args),
+        Some(7) if args.len() >= 3 => {
+            // a script over the provided Iterator methods around one of the ops 1, 2, 3, 5, 6
+            let Some(script) = args[1].list().and_then(|v| v.iter().map(step).collect::<Option<Vec<_>>>()) else {
+                return bad_case();
+            };
+            if !matches!(args[2].i64(), Some(1) | Some(2) | Some(3) | Some(5) | Some(6)) {
+                return bad_case();
+            }
+            SCRIPT.with(|s| *s.borrow_mut() = Some(script));
+            let out = guarded(|| run(&args[2..]));
+            SCRIPT.with(|s| *s.borrow_mut() = None);
+            match out {
+                Some(x) => x,
+                None => l(vec![z(-4)]),
+            }
+        }
         _ => bad_case(),
     }
 }
 
 // ------------------------------------------------------------------ driving an iterator
 
-/// k calls of next(); after each call the exact length; both size_hint bounds must equal len().
+/// A step of a script over the provided Iterator methods a type may override (op 7).
+#[derive(Clone)]
+pub enum Step {
+    Nth(usize),
+    Skip(usize),
+    StepBy(usize, usize),
+    Take(usize),
+    Count,
+    Last,
+    Fold,
+}
+
+thread_local! {
+    /// set by op 7 around the inner op: `drive` then runs the script instead of k calls of next()
+    static SCRIPT: std::cell::RefCell<Option<Vec<Step>>> = std::cell::RefCell::new(None);
+}
+
+fn step(s: &Sx) -> Option<Step> {
+    let v = s.list()?;
+    Some(match (v.first()?.i64()?, v.len()) {
+        (0, 2) => Step::Nth(v[1].usize()?),
+        (1, 2) => Step::Skip(v[1].usize()?),
+        (2, 3) if v[1].usize()? >= 1 => Step::StepBy(v[1].usize()?, v[2].usize()?),
+        (3, 2) => Step::Take(v[1].usize()?),
+        (4, 1) => Step::Count,
+        (5, 1) => Step::Last,
+        (6, 1) => Step::Fold,
+        _ => return None,
+    })
+}
+
+/// k calls of next() — or, under op 7, the script: nth / by_ref().skip / step_by / take, and the
+/// terminal count / last / fold — after each (non-terminal) call the exact length; both size_hint
+/// bounds must equal len().
 pub fn drive<I: ExactSizeIterator>(
     mut it: I,
     k: usize,
     mut enc: impl FnMut(I::Item) -> Sx,
-) -> Result<(Sx, Sx, I), i64> {
+) -> Result<(Sx, Sx, Option<I>), i64> {
     let len0 = it.len();
     if it.size_hint() != (len0, Some(len0)) {
         return Err(901);
     }
     let mut steps = vec![];
-    for _ in 0..k {
-        let item = it.next();
-        let len = it.len();
-        if it.size_hint() != (len, Some(len)) {
-            return Err(902);
+    let script = SCRIPT.with(|s| s.borrow().clone());
+    let Some(script) = script else {
+        for _ in 0..k {
+            let item = it.next();
+            let len = it.len();
+            if it.size_hint() != (len, Some(len)) {
+                return Err(902);
+            }
+            steps.push(l(vec![
+                match item {
+                    None => nil(),
+                    Some(x) => enc(x),
+                },
+                z(len),
+            ]));
         }
-        steps.push(l(vec![
-            match item {
-                None => nil(),
-                Some(x) => enc(x),
-            },
-            z(len),
-        ]));
+        return Ok((z(len0), l(steps), Some(it)));
+    };
+    for st in script {
+        match st {
+            Step::Nth(n) | Step::Skip(n) => {
+                let item = if let Step::Nth(_) = st { it.nth(n) } else { it.by_ref().skip(n).next() };
+                let len = it.len();
+                if it.size_hint() != (len, Some(len)) {
+                    return Err(902);
+                }
+                steps.push(l(vec![
+                    match item {
+                        None => nil(),
+                        Some(x) => enc(x),
+                    },
+                    z(len),
+                ]));
+            }
+            Step::StepBy(by, j) => {
+                let items: Vec<I::Item> = it.by_ref().step_by(by).take(j).collect();
+                let len = it.len();
+                if it.size_hint() != (len, Some(len)) {
+                    return Err(902);
+                }
+                steps.push(l(vec![z(7), l(items.into_iter().map(&mut enc).collect()), z(len)]));
+            }
+            Step::Take(j) => {
+                let items: Vec<I::Item> = it.by_ref().take(j).collect();
+                let len = it.len();
+                if it.size_hint() != (len, Some(len)) {
+                    return Err(902);
+                }
+                steps.push(l(vec![z(8), l(items.into_iter().map(&mut enc).collect()), z(len)]));
+            }
+            Step::Count => {
+                steps.push(l(vec![z(4), z(it.count())]));
+                return Ok((z(len0), l(steps), None));
+            }
+            Step::Last => {
+                steps.push(l(vec![
+                    z(5),
+                    match it.last() {
+                        None => nil(),
+                        Some(x) => enc(x),
+                    },
+                ]));
+                return Ok((z(len0), l(steps), None));
+            }
+            Step::Fold => {
+                let items: Vec<I::Item> = it.fold(vec![], |mut v, x| {
+                    v.push(x);
+                    v
+                });
+                steps.push(l(vec![z(6), l(items.into_iter().map(&mut enc).collect())]));
+                return Ok((z(len0), l(steps), None));
+            }
+        }
     }
-    Ok((z(len0), l(steps), it))
+    Ok((z(len0), l(steps), Some(it)))
 }
 
 pub fn val(v: i64) -> Sx {
